@@ -45,6 +45,86 @@ class CMap:
         return self.inv[float(y)]
 
 
+def add_sites(a, rng, nsites=3, nmuts=4, nalleles=4):
+    """site / mutation layer: sites at integer positions, 0..nmuts mutations per site on random nodes, listed parents first,
+    mutation parents by the nearest-earlier-mutation rule"""
+    K = a["L"]
+    N = len(a["time"])
+    poss = sorted(rng.sample(range(K), min(K, rng.randint(0, nsites))))
+    for p in poss:
+        a["sites"].append(dict(pos=p, anc=rng.randrange(nalleles)))
+    for s, p in enumerate(poss):
+        par = parent_at(a, p)
+        k = rng.randint(0, nmuts)
+        nodes = [rng.randrange(N) for _ in range(k)]
+
+        def d(u):
+            n = 0
+            while par[u] != -1:
+                u = par[u]
+                n += 1
+            return n
+        # parents first: order by (root, depth); same node repeated keeps order
+        nodes.sort(key=lambda u: d(u))
+        rows = []
+        for u in nodes:
+            rows.append(dict(site=s, node=u, der=rng.randrange(nalleles), parent=-1, time=-1))
+        base = len(a["muts"])
+        # mutation parent = last earlier mutation at this site on the nearest ancestor-or-self carrying one
+        for i, m in enumerate(rows):
+            v = m["node"]
+            found = -1
+            while v != -1 and found == -1:
+                for j in range(i - 1, -1, -1):
+                    if rows[j]["node"] == v:
+                        found = j
+                        break
+                v = par[v]
+            m["parent"] = base + found if found != -1 else -1
+        a["muts"].extend(rows)
+    return a
+
+
+def coalescent_abstract(rng, nleaves=4, ninternal=4, K=4, p_keep=0.5, p_join=0.85, p_internal_sample=0.0):
+    """sample-rich abstract ts: `nleaves` sample leaves at time 0, internal nodes with distinct times 1..ninternal; in every unit cell the
+    lineages are joined (2-3 at a time) under internal nodes taken in time order; a cell repeats its left neighbour's tree with probability
+    p_keep; leftovers give multiple roots, skipped internal nodes give nodes that come and go along the sequence"""
+    N = nleaves + ninternal
+    times = [0] * nleaves + list(range(1, ninternal + 1))
+    flags = [1] * nleaves + [1 if rng.random() < p_internal_sample else 0 for _ in range(ninternal)]
+    cellpar = []
+    for x in range(K):
+        if x > 0 and rng.random() < p_keep:
+            cellpar.append(dict(cellpar[-1]))
+            continue
+        par = {}
+        lineages = [u for u in range(nleaves) if rng.random() < 0.95]
+        for j in range(nleaves, N):
+            if len(lineages) >= 2 and rng.random() < p_join:
+                k = 2 if len(lineages) == 2 or rng.random() < 0.8 else 3
+                ch = rng.sample(lineages, k)
+                for c in ch:
+                    par[c] = j
+                    lineages.remove(c)
+                lineages.append(j)
+        cellpar.append(par)
+    edges = []
+    for c in range(N):
+        x = 0
+        while x < K:
+            p = cellpar[x].get(c)
+            if p is None:
+                x += 1
+                continue
+            y = x
+            while y < K and cellpar[y].get(c) == p:
+                y += 1
+            edges.append(dict(left=x, right=y, parent=p, child=c))
+            x = y
+    edges.sort(key=lambda e: (times[e["parent"]], e["parent"], e["child"], e["left"]))
+    return dict(L=K, time=times, flags=flags, edges=edges, sites=[], muts=[])
+
+
 def random_abstract(rng, N=6, K=4, max_edges=10, nsites=3, nmuts=4, p_internal_sample=0.15,
                     max_time=3, nalleles=4, p_nonsample_leaf=0.2):
     """random valid small abstract ts: integer coordinates on 0..K, node times = small ints
@@ -86,38 +166,7 @@ def random_abstract(rng, N=6, K=4, max_edges=10, nsites=3, nmuts=4, p_internal_s
     key = {p: rng.random() for p in range(N)}
     edges.sort(key=lambda e: (times[e["parent"]], key[e["parent"]], e["child"], e["left"]))
     a = dict(L=K, time=times, flags=flags, edges=edges, sites=[], muts=[])
-    poss = sorted(rng.sample(range(K), min(K, rng.randint(0, nsites))))
-    for p in poss:
-        a["sites"].append(dict(pos=p, anc=rng.randrange(nalleles)))
-    for s, p in enumerate(poss):
-        par = parent_at(a, p)
-        k = rng.randint(0, nmuts)
-        nodes = [rng.randrange(N) for _ in range(k)]
-
-        def d(u):
-            n = 0
-            while par[u] != -1:
-                u = par[u]
-                n += 1
-            return n
-        # parents first: order by (root, depth); same node repeated keeps order
-        nodes.sort(key=lambda u: d(u))
-        rows = []
-        for u in nodes:
-            rows.append(dict(site=s, node=u, der=rng.randrange(nalleles), parent=-1, time=-1))
-        base = len(a["muts"])
-        # mutation parent = last earlier mutation at this site on the nearest ancestor-or-self carrying one
-        for i, m in enumerate(rows):
-            v = m["node"]
-            found = -1
-            while v != -1 and found == -1:
-                for j in range(i - 1, -1, -1):
-                    if rows[j]["node"] == v:
-                        found = j
-                        break
-                v = par[v]
-            m["parent"] = base + found if found != -1 else -1
-        a["muts"].extend(rows)
+    add_sites(a, rng, nsites, nmuts, nalleles)
     return a
 
 
